@@ -133,6 +133,14 @@ impl Drop for Tok {
         assert!(t.alive[i], "C05: a payload was dropped twice");
         t.alive[i] = false;
         t.dropped += 1;
+        // the destructor takes a while too: anything may run here; the memory being destroyed
+        // must stay this value until the destructor returns
+        let (id0, chk0) = (self.id, self.chk);
+        rt::point(K_PAYLOAD, self as *const Tok as usize);
+        assert!(
+            self.inst == i && self.id == id0 && self.chk == chk0,
+            "C05: a slot was overwritten while the value in it was being destroyed"
+        );
     }
 }
 
